@@ -7,6 +7,7 @@
 //   ssave/sload/srt <ty> ...    -> the same through serialization_traits<T> (only serializable classes, B.* / X.*)
 //   ops   <hex> <op>...         -> raw archive primitives: n (next_chunk_size) r<len> (read_chunk) s (read_chunk_as_string) e (eof)
 //   wr    <hex> <hex>...        -> write_chunk of each word; hex of the archive
+//   load+ rt+ sload+ srt+       -> the same, but the object loaded into is pre-populated with junk (load must replace it)
 //
 // Compiled with -fno-access-control so that the harness can see archive::buffer_ / ptr_:
 // the slack of the buffer's std::string storage (capacity - size, and the terminating NUL) is
@@ -229,6 +230,27 @@ template<typename T> void parse(Tok &t,box<T> &v) { parse(t,v.v); }
 template<typename A,typename B> void dump(rec2<A,B> const &v,std::string &o) { dump(v.a,o); dump(v.b,o); }
 template<typename A,typename B> void parse(Tok &t,rec2<A,B> &v) { parse(t,v.a); parse(t,v.b); }
 
+
+// ---- pre-populate the object a load writes into: load must replace whatever was there
+struct Junk {
+	template<typename T> static typename std::enable_if<std::is_arithmetic<T>::value>::type j(T &v) { memset(&v,0x5a,sizeof(v)); }
+	static void j(std::string &v) { v="junk"; }
+	template<typename T> static typename std::enable_if<std::is_arithmetic<T>::value>::type j(std::vector<T> &v) { v.assign(3,T(7)); }
+	template<typename T> static typename std::enable_if<!std::is_arithmetic<T>::value>::type j(std::vector<T> &v) { T x=T(); j(x); v.push_back(x); v.push_back(T()); }
+	template<typename T> static void j(std::list<T> &v) { T x=T(); j(x); v.push_back(x); }
+	template<typename T> static void j(std::set<T> &v) { T x=T(); j(x); v.insert(x); v.insert(T()); }
+	template<typename T> static void j(std::multiset<T> &v) { T x=T(); j(x); v.insert(x); v.insert(x); }
+	template<typename K,typename V> static void j(std::map<K,V> &v) { std::pair<K,V> x; j(x); v.insert(x); v.insert(std::pair<K,V>()); }
+	template<typename K,typename V> static void j(std::multimap<K,V> &v) { std::pair<K,V> x; j(x); v.insert(x); v.insert(x); }
+	template<typename A,typename B> static void j(std::pair<A,B> &v) { j(const_cast<typename std::remove_const<A>::type &>(v.first)); j(v.second); }
+	template<typename T> static void j(booster::shared_ptr<T> &v) { v.reset(new T()); j(*v); }
+	template<typename T> static void j(std::unique_ptr<T> &v) { v.reset(new T()); j(*v); }
+	template<typename T> static void j(booster::copy_ptr<T> &v) { v.reset(new T()); j(*v); }
+	template<typename T,size_t N> static void j(T (&v)[N]) { for(size_t i=0;i<N;i++) j(v[i]); }
+	template<typename T> static void j(box<T> &v) { j(v.v); }
+	template<typename A,typename B> static void j(rec2<A,B> &v) { j(v.a); j(v.b); }
+};
+
 // ---- ASan: make the archive's buffer "heap exact"
 struct Poison {
 	char const *p; size_t n;
@@ -245,6 +267,8 @@ static std::string err_kind(char const *what)
 	if(w.find("Invalid block length")!=std::string::npos) return "err len";
 	return "err other:" + w;
 }
+
+static bool prefill=false;   // toggled per case: ops whose name ends in '+' load into a pre-populated object
 
 struct Ops {
 	std::string (*save)(Tok &);
@@ -270,6 +294,7 @@ template<typename T> std::string do_load(std::string const &bytes)
 	std::string out;
 	try {
 		T v=T();
+		if(prefill) Junk::j(v);
 		cppcms::archive_traits<T>::load(v,a);
 		out="ok"; dump(v,out);
 		out+=" @"+std::to_string(a.ptr_);
@@ -287,6 +312,7 @@ template<typename T> std::string do_rt(Tok &t)
 	std::string out;
 	try {
 		T w=T();
+		if(prefill) Junk::j(w);
 		a & w;                          // operator& in load mode
 		out="ok"; dump(w,out);
 		out+=a.eof() ? " eof=1" : " eof=0";
@@ -307,6 +333,7 @@ template<typename T> std::string do_sload(std::string const &bytes)
 	std::string out;
 	try {
 		T v=T();
+		if(prefill) Junk::j(v);
 		cppcms::serialization_traits<T>::load(bytes,v);
 		out="ok"; dump(v,out);
 	}
@@ -320,6 +347,7 @@ template<typename T> std::string do_srt(Tok &t)
 	cppcms::serialization_traits<T>::save(v,s);
 	try {
 		T w=T();
+		if(prefill) Junk::j(w);
 		cppcms::serialization_traits<T>::load(s,w);
 		out="ok"; dump(w,out);
 	}
@@ -422,15 +450,18 @@ static std::string run(std::vector<std::string> const &w)
 	if(p==registry.end()) return "bad-type";
 	Ops const &o=p->second;
 	Tok t={w,2};
-	if(op=="save") return o.save(t);
-	if(op=="rt") return o.rt(t);
-	if(op=="ssave") return o.ssave ? o.ssave(t) : "bad-op";
-	if(op=="srt") return o.srt ? o.srt(t) : "bad-op";
-	if(op=="load" || op=="sload") {
+	std::string o2=w[0];
+	prefill=false;
+	if(o2.size()>1 && o2[o2.size()-1]=='+') { prefill=true; o2=o2.substr(0,o2.size()-1); }
+	if(o2=="save") return o.save(t);
+	if(o2=="rt") return o.rt(t);
+	if(o2=="ssave") return o.ssave ? o.ssave(t) : "bad-op";
+	if(o2=="srt") return o.srt ? o.srt(t) : "bad-op";
+	if(o2=="load" || o2=="sload") {
 		if(w.size()!=3) return "bad-op";
 		std::string bytes;
 		if(!vh::unhex(w[2],bytes)) return "bad-op";
-		if(op=="load") return o.load(bytes);
+		if(o2=="load") return o.load(bytes);
 		return o.sload ? o.sload(bytes) : "bad-op";
 	}
 	return "bad-op";
